@@ -578,6 +578,15 @@ def get_app_pending_mutations(app, evolution_labels=[], mutations=None,
             if app_sig.get_model_sig(old_model_sig.model_name) is None
         )
 
+        # A model that was renamed is listed above under its old name (it's
+        # gone from the current signature), but not under its new one (which
+        # isn't in the old signature). Mutations made to the model after the
+        # rename refer to it by the new name, so follow the renames.
+        for mutation in mutations:
+            if (isinstance(mutation, RenameModel) and
+                mutation.old_model_name in changed_models):
+                changed_models.add(mutation.new_model_name)
+
         # We should now have a full list of which models changed. Filter
         # the list of mutations appropriately.
         #
